@@ -140,9 +140,17 @@ class Machine:
         if op == "tupleNew":
             return Tuple.new(g(cmd["a"]), g(cmd["b"]))
         if op == "ntupleNew":
-            return NTuple.new([g(r) for r in cmd["xs"]])
+            # the caller goes on using its list: the tuple must not follow it (members rotated afterwards, nothing traced)
+            members = [g(r) for r in cmd["xs"]]
+            made = NTuple.new(members)
+            members[:] = members[1:] + members[:1]
+            return made
         if op == "objectNew":
-            return Object.new({n: g(r) for n, r in cmd["fs"]})
+            fields = {n: g(r) for n, r in cmd["fs"]}
+            made = Object.new(fields)
+            names, vals = list(fields), list(fields.values())
+            fields.update(zip(names, vals[1:] + vals[:1]))
+            return made
         if op == "ntupleGet":
             return g(cmd["t"])[int(cmd["i"])]
         if op == "objectGet":
